@@ -49,8 +49,13 @@ deriving Inhabited
 
 def errOr (e : Option Err) (ok : String) : String := match e with | some x => x.name | none => ok
 
+/-- the network endpoint copies addresses into fields of its own family's size (`copy` truncates / leaves zeros) -/
+def fitAddr (np : Nat) (a : Addr) : Addr :=
+  let n := if np == v6 then 16 else 4
+  (a ++ List.replicate n 0).take n
+
 def showPkt (p : OutPkt) : String :=
-  s!"{protoName p.netProto} {toHexN p.src} {toHexN p.dst} {p.sport} {p.dport} ulen={8 + p.payload.length} {toHexN p.payload}"
+  s!"{protoName p.netProto} {toHexN (fitAddr p.netProto p.src)} {toHexN (fitAddr p.netProto p.dst)} {p.sport} {p.dport} ulen={8 + p.payload.length} {toHexN p.payload}"
 
 def modelStep (st : St) (toks : List String) : St × String :=
   let w := st.w
@@ -267,7 +272,11 @@ def oracleStep (st : St) (toks : List String) (res : String) : St × String :=
           | some fa, some fp =>
             let s := o.socks.getD i {}
             -- candidates: not yet returned, same bytes and sender
-            let exact := o.dgrams.find? fun g => !g.consumed && g.payload == data && g.src == fa && g.sport == fp
+            -- identical datagrams are interchangeable: prefer one that was meant for this socket
+            let same := o.dgrams.filter fun g => !g.consumed && g.payload == data && g.src == fa && g.sport == fp
+            let exact := match same.find? (fun g => g.expect == some i) with
+              | some g => some g
+              | none => same.head?
             match exact with
             | none =>
               -- classify: truncated / merged / duplicated / invented
@@ -285,9 +294,17 @@ def oracleStep (st : St) (toks : List String) (res : String) : St × String :=
         | _, _ => (st, "bad-op")
       | _ => (st, "bad-op")
     | none => (st, "bad-op")
-  | ["udp.write", _, _, _, pl, _] =>
+  | ["udp.write", i, _, _, pl, lp] =>
     match hexN pl with
     | some pl =>
+      -- a write on an unbound socket binds it to the wildcard address and an ephemeral port first
+      let st := match i.toNat?, lp.toNat? with
+        | some i, some lp =>
+          if lp != 0 then
+            let s := o.socks.getD i {}
+            { st with o := setSock o i { s with live := true, laddr := [], lport := lp } }
+          else st
+        | _, _ => st
       if !res.startsWith "n=" then (st, "ok") else
       -- "n=<len> pkt=<proto> <src> <dst> <sport> <dport> ulen=<u> <payload>"
       match res.splitOn " " with
